@@ -1,11 +1,14 @@
 package memory
 
 import (
+	"bytes"
 	"fmt"
 	"os"
 	"reflect"
 	"runtime"
 	"strings"
+	"sync"
+	"sync/atomic"
 	"syscall"
 	"testing"
 	"unsafe"
@@ -109,6 +112,44 @@ func c14run(t *testing.T, wx bool) {
 				continue
 			}
 			out.Put(op.Idx, "ps=%#x", PageStart(uintptr(vh.U64(op.Toks[1]))))
+		case "c14.conc":
+			// c14.conc <writers> <iterations>: concurrent WriteTo calls into ONE page (disjoint 13-byte slots).  Every write
+			// must land although another writer closes the page in between — goom serialises the whole open/copy/close
+			// sequence.  A write that faults kills the process: then this op has no observation.
+			if wx || len(op.Toks) != 3 {
+				continue
+			}
+			nw, iters := int(vh.U64(op.Toks[1])), int(vh.U64(op.Toks[2]))
+			_, _, e := syscall.Syscall6(syscall.SYS_MMAP, base, uintptr(c14MaxPages)*4096, syscall.PROT_READ|syscall.PROT_EXEC,
+				syscall.MAP_PRIVATE|syscall.MAP_ANON|syscall.MAP_FIXED, ^uintptr(0), 0)
+			c14must(e, "mmap region")
+			var ready, bad int32
+			var wg sync.WaitGroup
+			for w := 0; w < nw; w++ {
+				wg.Add(1)
+				go func(w int) {
+					defer wg.Done()
+					atomic.AddInt32(&ready, 1)
+					for atomic.LoadInt32(&ready) < int32(nw) { // spin barrier: all writers run at once
+					}
+					slot := base + 4096 - 100 + uintptr(w)*16 // around the first page end: some slots straddle it
+					buf := make([]byte, 13)
+					for it := 0; it < iters; it++ {
+						for k := range buf {
+							buf[k] = byte(w*31 + it + k)
+						}
+						if err := WriteTo(slot, buf); err != nil {
+							atomic.AddInt32(&bad, 1)
+						}
+						if !bytes.Equal(c14raw(slot, 13), buf) {
+							atomic.AddInt32(&bad, 1)
+						}
+					}
+				}(w)
+			}
+			wg.Wait()
+			ms := c14u.Maps()
+			out.Put(op.Idx, "oracle-only | bad=%d perms=%s%s", bad, c14u.PermLetter(ms, base), c14u.PermLetter(ms, base+4096))
 		case "c14.write", "c14.writewx":
 			if len(op.Toks) != 4 || op.Toks[0] != writeOp {
 				continue
